@@ -100,7 +100,8 @@ def run(ctx):
                 cmds.append(['type', '--binary', common.fsp(label, f)])
         if quick:
             cmds = [cmds[0]] + r.shuffle(cmds[1:])[:3]
-        variants = [(r.choice([0, 1, 6, 9]), None, 1)] if quick else [(0, None, 1), (1, None, 1), (6, 'orig.img', 1), (9, None, 1)]
+        other = {'ssd': 'side.dsd', 'sdd': 'x.ssd', 'dsd': 'side.ssd', 'ddd': 'x.sdd', 'mmb': 'arc.ssd', 'hfe': 'flux.mfm', 'mfm': 'flux.hfe'}[name.rsplit('.', 1)[-1]]
+        variants = [(r.choice([0, 1, 6, 9]), None, 1), (6, other, 1)] if quick else [(0, None, 1), (1, None, 1), (6, 'orig.img', 1), (9, None, 1), (6, other, 1), (1, 'noextension', 1)]
         for (level, stored_name, members) in variants:
             z = gz(data, level, stored_name, members)
             for cmd in cmds:
